@@ -117,6 +117,11 @@ func (c *glCtx) expr(e ast.Expr) string {
 		}
 		c.fail(e, "identifier %s (%T)", x.Name, o)
 	case *ast.StarExpr:
+		if nilablePtr(c.typeOf(x.X)) {
+			t := c.fresh("t")
+			c.emit("let %s ← Go.deref %s", t, c.expr(x.X))
+			return t
+		}
 		return c.expr(x.X)
 	case *ast.UnaryExpr:
 		switch x.Op {
@@ -380,6 +385,12 @@ func (c *glCtx) binary(x *ast.BinaryExpr, rt types.Type) string {
 		// `reader == nil` for an io.ReaderAt: a reader is a function value in the model and is never nil (a nil reader is
 		// outside the theorems' quantifier: they are stated over in-memory readers)
 		if idn, ok := ast.Unparen(x.Y).(*ast.Ident); ok && idn.Name == "nil" && (x.Op == token.EQL || x.Op == token.NEQ) {
+			if nilablePtr(lt) {
+				if x.Op == token.EQL {
+					return "(" + c.expr(x.X) + ").isNone"
+				}
+				return "(" + c.expr(x.X) + ").isSome"
+			}
 			if ltn, ok := c.g.leanTypeOK(lt); ok && ltn == "Go.ReaderAt" {
 				if x.Op == token.EQL {
 					return "false"
